@@ -10,6 +10,7 @@ from simlib import Rng, mkspec, random_sched
 PROPERTY = "C20"
 LEVEL = "exploration"
 BUDGET = {"quick": 80, "thorough": 1500}
+MIN_CASES = {"quick": 1500}  # see checklib.Check: quick goes on to this many cases on a loaded machine (up to 3x its budget)
 RULE = ("cases: a history of (target, record) routings (round-robin, bursts, Zipf, long gaps; 1..3x the handle-cache "
         "capacity distinct targets, names needing escaping, pre-existing files for append) driven through split -g/-n/-m, "
         "the tee verb (then head / then a mutating verb) and put -q with tee/emit/emitp/emitf/print/printn/dump redirected "
